@@ -1,10 +1,13 @@
 // Package c03 — calling the origin placeholder runs the unmodified original function.
 //
 // static : engine E — goom's (pure) prologue relocation is run on every function of the worker
-//          binary and of Go toolchain binaries for a set of placeholder positions and validated
-//          with an independent decoder.
+//
+//	binary and of Go toolchain binaries for a set of placeholder positions and validated
+//	with an independent decoder.
+//
 // dynamic: engine H/E — a zoo of function shapes is mocked with an origin placeholder and the
-//          placeholder is called at every stack depth around the point where the stack grows.
+//
+//	placeholder is called at every stack depth around the point where the stack grows.
 package c03
 
 import (
